@@ -108,9 +108,10 @@ class Ref(object):
                 for n in self.nodes:
                     if d["t"] == "PRV" and self.nodes[n]["t"] != "junc":
                         continue
-                    if n != d["a"] and n != d["b"]:
-                        ops.append(["set_start", l, n])
-                        ops.append(["set_end", l, n])
+                    # every target is legal: another node, the node the end already has (a no-op edit) and the other
+                    # end (the transient self-loop of a reversal done through the two setters, as morph.reverse_link does)
+                    ops.append(["set_start", l, n])
+                    ops.append(["set_end", l, n])
                 if d["t"] in ("hpump", "ppump"):
                     if d["sp"] is None and P:
                         ops.append(["set_speed_pattern", l, "P"])
